@@ -132,7 +132,14 @@ TCtrlTake ==
 \* The driver drained every port, answered every lookup and every physical access and ran
 \* the engine until no event was pending: nothing may be left inside the component.
 TQuiesce ==
-  /\ Is("Quiesce") /\ Run /\ Quiescent /\ Settled
+  /\ Is("Quiesce") /\ Run /\ EnvIdle /\ Settled
+  /\ UNCHANGED vars /\ Same
+
+\* End of a run between real neighbours (system mode): the engine ran out of events.  If the
+\* neighbours owe nothing and the ports are empty, nothing may be left inside the translator
+\* (an access waiting in a finished transaction while the engine is idle is a lost tick).
+TEnd ==
+  /\ Is("End") /\ Run /\ (EnvIdle => Settled)
   /\ UNCHANGED vars /\ Same
 
 \* concatenated traces: start over with the logged configuration
@@ -152,9 +159,31 @@ TReset ==
 TNext == TEnvReq \/ TEnvTakeLookup \/ TEnvTlbRsp \/ TEnvTakeDown \/ TEnvMemRsp \/ TEnvTakeUp
          \/ TEnvCtrl \/ TEnvTakeCtrl
          \/ TTrSend \/ TAccept \/ TMark \/ TForward \/ TTrTake \/ TRspUp \/ TBotTake
-         \/ TCtrlRsp \/ TCtrlTake \/ TQuiesce \/ TReset
+         \/ TCtrlRsp \/ TCtrlTake \/ TQuiesce \/ TEnd \/ TReset
 
 TSpec == TInit /\ [][TNext]_tvars
+
+\* The invariants of AddrTrans, in a form that is cheap on long traces.  The history variables are
+\* append-only within a run and every step appends at most one element, so checking the element
+\* appended last in every state checks every element; "all different" is a cardinality.
+LastOK(s, P(_)) == s = <<>> \/ P(Len(s))
+TOnceDown == /\ Cardinality(FwdTops) = Len(fwd)
+             /\ Cardinality({fwd[i].bot : i \in 1..Len(fwd)}) = Len(fwd)
+TOnceUp == Cardinality(RspTos) = Len(rsps)
+TPhysAddr == LastOK(fwd, LAMBDA i :
+               LET o == orig[fwd[i].top].p
+                   key == PTKey(o.pid, PageOf(o.a)) IN
+               key \in DOMAIN pt /\ fwd[i].p.a = Phys(pt[key], o.a))
+TPayload == LastOK(fwd, LAMBDA i :
+              LET o == orig[fwd[i].top].p IN
+              fwd[i].p.k = o.k /\ fwd[i].p.n = o.n /\ fwd[i].p.d = o.d /\ fwd[i].p.m = o.m)
+TRspToOriginal == LastOK(rsps, LAMBDA i :
+                    LET r == rsps[i] IN
+                    /\ r.to \in DOMAIN orig
+                    /\ r.dst = orig[r.to].src
+                    /\ \E j \in 1..Len(fwd) : fwd[j].top = r.to /\ fwd[j].bot = r.bot
+                    /\ r.bot \in DOMAIN memRsp /\ r.d = memRsp[r.bot]
+                    /\ (orig[r.to].p.k = "w") <=> (r.d = WriteDone))
 
 HW == HWNote(l)                   \* CONSTRAINT: records progress
 Accepted == HWReport(N)           \* POSTCONDITION
